@@ -323,7 +323,6 @@ def replay(check_id, h, workdir):
         logs.append(lf)
         if re.search(r"test result: FAILED|panicked at", t):
             reproduced = True
-    shutil.rmtree(target + "_native", ignore_errors=True)
     shutil.rmtree(target, ignore_errors=True)
     return reproduced, modfile
 
@@ -429,9 +428,10 @@ def main():
     for r in results:
         if r["status"] == "inconclusive":
             inconclusive.append(r)
-    viol = [r for r in results if r["status"] == "violation"]
+    viol = sorted([r for r in results if r["status"] == "violation"], key=lambda r: (r["harness"].endswith("_mf"), r.get("wall_s", 0)))
     seen = set()
     n_viol = 0
+    replays_tried = 0
     for r in viol:
         key = (r["harness"], r["geo"])
         if key in seen:
@@ -445,9 +445,17 @@ def main():
             continue
         h = [x for x in selected if x["short"] == r["harness"] and x["geo"] == r["geo"]][0]
         log("  counterexample candidate in %s: %s" % (r["harness"], "; ".join(r["details"])[:600]))
+        if n_viol > 0:
+            # one reproduced counterexample decides the run; further candidates are listed, not replayed
+            r["replay"] = {"reproduced": None, "path": r["log"], "note": "not replayed: an earlier counterexample of this run already reproduced"}
+            log("  (also failing, not replayed: %s, CBMC log %s)" % (r["harness"], r["log"]))
+            continue
         if os.environ.get("VERIF_NO_REPLAY") == "1":
             reproduced, path = True, r["log"]
+        elif replays_tried >= 3:
+            reproduced, path = None, r["log"]
         else:
+            replays_tried += 1
             reproduced, path = replay(check_id, h, workdir)
         r["replay"] = {"reproduced": reproduced, "path": path}
         if reproduced:
@@ -463,6 +471,8 @@ def main():
             log("INCONCLUSIVE property=%s harness=%s: %s (log %s)" % (check_id, r["harness"],
                                                                       "; ".join(r["details"])[:400], r.get("log")))
         exit_code = 2
+    for d in glob.glob(os.path.join(workdir, "*_native")):
+        shutil.rmtree(d, ignore_errors=True)
     wall = time.time() - t_start
     write_evidence(evid_path, check_id, tier, seed, spec, results, wall, n_viol,
                    None if exit_code != 2 else "inconclusive", codegen_s)
